@@ -72,7 +72,8 @@ PINS = {('passlib/apache.py', 'HtdigestFile._encode_key'): ['return (self._encod
                                                   'existing = self._set_record(user, hash)',
                                                   'self._autosave()',
                                                   'return existing'],
- ('passlib/apache.py', 'HtpasswdFile.set_password'): ['hash = self.context.hash(password)', 'return self.set_hash(user, hash)'],
+ ('passlib/apache.py', 'HtpasswdFile.set_password'): ['if isinstance(password, str):\n    password = password.encode(self.encoding)', 'hash = self.context.hash(password)',
+                                                      'return self.set_hash(user, hash)'],
  ('passlib/apache.py', 'HtpasswdFile.users'): ['return [self._decode_field(user) for user in self._records]'],
  ('passlib/apache.py', '_CommonFile._autosave'): ['if self.autosave and self._path:\n    self.save()'],
  ('passlib/apache.py', '_CommonFile._decode_field'): ["assert isinstance(value, bytes), 'expected value to be bytes'",
